@@ -22,6 +22,7 @@ package seccomp
 
 import (
 	"fmt"
+	"runtime"
 	"syscall"
 	"unsafe"
 
@@ -63,6 +64,11 @@ func LoadFilter(filter Filter) error {
 		Len:    uint16(len(sockFilter)),
 		Filter: &sockFilter[0],
 	}
+
+	// no_new_privs is a per-thread attribute and the kernel requires it on the
+	// thread that calls seccomp(2), so both calls must run on the same thread.
+	runtime.LockOSThread()
+	defer runtime.UnlockOSThread()
 
 	if filter.NoNewPrivs {
 		if err = SetNoNewPrivs(); err != nil {
